@@ -508,4 +508,64 @@ theorem eval_statements (f sc : Nat) (n : Node) (cs : List Node) (h : n.name = "
   rw [forIn_seq f sc _ (fun c r => by simp) cs Val.null]
   simp
 
+/-! ### the call `range(…)` in a `for … in` loop -/
+
+/-- the access path of an identifier whose only child is its argument list is its own name -/
+theorem accessString_call (f sc : Nat) (n fc : Node) (pre : List Nat) (hc : n.children = [some fc])
+    (hfc : fc.name = "funccall") : accessString (f+1) sc n pre = pure (none, pre) := by
+  rw [accessString]
+  simp [hc, hfc]
+
+/-- the evaluation of the argument list of a call node: every argument with a fresh instance-state map -/
+def argsEval (f sc : Nat) (fc : Node) : M (List Val) :=
+  fc.children.mapM fun c => match c with
+    | some c => withFreshIs (eval f sc c)
+    | none => throw Sig.panic
+
+/-- **eval_range_call**: evaluating the expression `range(a, …)` (an identifier node named `range` with its
+    argument list; `range` not shadowed by a function value) evaluates the arguments — each with a fresh
+    instance-state map — and then runs the builtin's state machine (`runBuiltin … "range"`, whose step on
+    an existing entry is `runBuiltin_range_next`); a plain end-of-iteration text becomes the loop's break
+    signal (`wrapCallErr`) -/
+theorem eval_range_call (f sc : Nat) (it fc : Node) (t : Tok)
+    (hn : it.name = "identifier") (ht : it.tok = some t) (hc : it.children = [some fc]) (hfc : fc.name = "funccall")
+    (hname : bytesToString t.val = "range") (hmath : ((splitDots t.val).head? == some (str "math")) = false) :
+    eval (f+3) sc it = (do
+      let (v', _) ← getValue sc t.val
+      -- the value of a variable called `range` only matters when it is a function
+      if (match v' with | .func _ => false | .builtin _ => false | _ => true) then do
+        let args ← argsEval f sc fc
+        match ← attemptE (runBuiltin f sc it "range" args) with
+        | .ok r => pure r
+        | .error e => throw (wrapCallErr it e)
+      else callFunction (f+1) sc it t.val v') := by
+  rw [eval]
+  simp only [hn]
+  rw [evalIdent]
+  simp only [tokOf, ht, pure_bind, hc, List.isEmpty_cons, Bool.false_eq_true, if_false,
+    accessString_call f sc it fc t.val hc hfc, hmath]
+  congr 1; funext p
+  obtain ⟨v', b⟩ := p
+  simp only [List.any_cons, hfc, beq_self_eq_true, Bool.true_or, if_true]
+  have hcall : ∀ w : Val, (match w with | .func _ => false | .builtin _ => false | _ => true) = true →
+      callFunction (f+1) sc it t.val w = (do
+        let args ← argsEval f sc fc
+        match ← attemptE (runBuiltin f sc it "range" args) with
+        | .ok r => pure r
+        | .error e => throw (wrapCallErr it e)) := by
+    intro w hw
+    rw [callFunction]
+    simp only [hc, List.find?_cons, hfc, beq_self_eq_true, pure_bind, hname, argsEval]
+    cases w <;> simp_all <;> rfl
+  cases v' with
+  | func id => simp
+  | builtin nm => simp
+  | null => simp [hcall]
+  | bool x => simp [hcall]
+  | num x => simp [hcall]
+  | str x => simp [hcall]
+  | list r l => simp [hcall]
+  | map r => simp [hcall]
+  | «opaque» w => simp [hcall]
+
 end Ecal.Ev
